@@ -468,7 +468,8 @@ pub fn faulted<T>(
 ) -> VResult<Result<T, MlsError>> {
     let storage = w.cfg.oracle("storage-faults");
     let identity = w.cfg.oracle("identity-faults");
-    if !storage && !identity {
+    let crypto = w.cfg.oracle("crypto-faults");
+    if !storage && !identity && !crypto {
         return call(w);
     }
     // (the non-atomic write_to_storage is C15's recorded finding; other properties that borrow the storage faults
@@ -477,7 +478,7 @@ pub fn faulted<T>(
         return call(w);
     }
     let prop = w.cfg.property.clone();
-    let kind = if storage { "S-ERR" } else { "A-ID-ERR" };
+    let kind = if storage { "S-ERR" } else if identity { "A-ID-ERR" } else { "C-ERR" };
     let r0 = w.parties[p].ctx.get_prng();
     let live_g = g.filter(|g| w.mem_ref(p, *g).map(|m| m.group.is_some()).unwrap_or(false));
     let s0 = live_g.and_then(|g| w.parties[p].mems[g].group.as_ref().and_then(|x| h1(x).ok()));
@@ -499,22 +500,29 @@ pub fn faulted<T>(
         };
         if storage {
             crate::seams::faults_begin(&w.parties[p].faults, &plan);
-        } else {
+        } else if identity {
             let mut c = w.parties[p].identity.ctl.lock().unwrap();
             c.counting = true;
             c.calls = 0;
             c.fired = 0;
             c.fail_at = plan.iter().copied().collect();
+        } else {
+            crate::crypto::cfault_begin(plan.first().copied());
         }
         w.parties[p].ctx.set_prng(r0.clone());
         let r = call(w);
+        let mut crypto_site = "";
         let (calls, fired, log) = if storage {
             crate::seams::faults_end(&w.parties[p].faults)
-        } else {
+        } else if identity {
             let mut c = w.parties[p].identity.ctl.lock().unwrap();
             c.counting = false;
             c.fail_at.clear();
             (c.calls, c.fired, vec![])
+        } else {
+            let (calls, fired, site) = crate::crypto::cfault_end();
+            crypto_site = site;
+            (calls, fired, vec![])
         };
         let r = r?;
         k += 1;
@@ -562,14 +570,14 @@ pub fn faulted<T>(
         let site = log
             .get(plan[0] as usize)
             .copied()
-            .unwrap_or(if storage { "?" } else { "identity" });
+            .unwrap_or(if storage { "?" } else if identity { "identity" } else { crypto_site });
         *w.stats.probes.entry(format!("fault-site:{what}:{site}")).or_default() += 1;
         match &r {
             Ok(_) if !storage => {
-                // an identity-provider error while validating a by-reference proposal makes the committer or
-                // receiver drop that proposal, like any other invalid by-reference proposal: the operation
-                // legitimately succeeds
-                w.stats.probe(&format!("identity-error-absorbed:{what}"));
+                // an identity-provider (or crypto-provider) error while validating a by-reference proposal makes
+                // the committer or receiver drop that proposal, like any other invalid by-reference proposal: the
+                // operation legitimately succeeds
+                w.stats.probe(&format!("{}-error-absorbed:{what}", if identity { "identity" } else { "crypto" }));
                 return Ok(r);
             }
             Ok(_) => {
